@@ -34,6 +34,27 @@ type model =
   | Dense of { mutable fx : mlm; mutable asis : mlm; mutable tr : trk }
   | Sparse of { mutable sm : sml; mutable sm_asis : sml; mutable str : trk; eigen : bool }
 
+(* Posterior-sampling (Thompson) rows: deterministic, distribution-level oracle + correspondence with
+   the Coq normalisation model applied to the replayed draws.
+   [n] number of records of the row, [mu]/[m2q] their mean / M2 recomputed from the raw history. *)
+let judge_thompson_row site what (g : float list) (t : float) (irow : float list) (iR : float) (n : int) (mu : q) (m2q : q) =
+  (* O: thompson_rows_valid *)
+  List.iteri (fun k p -> if not (Float.is_finite p) || p < 0.0 || p > 1.0 +. 1e-12 then
+                 oracle_fail "thompson_rows_valid" site (Printf.sprintf "%s: P(%d)=%h is not a probability" what k p)) irow;
+  let sum = List.fold_left (+.) 0.0 irow in
+  if Float.abs (sum -. 1.0) > 1e-9 then oracle_fail "thompson_rows_valid" site (Printf.sprintf "%s: row sums to %.12g [%s]" what sum (String.concat " " (List.map (Printf.sprintf "%g") irow)));
+  (* O: reward = empirical mean (+ t * sqrt(M2/(n(n-1))) once two samples exist) *)
+  let muf = float_of_q mu and m2f = float_of_q m2q in
+  let want = if n < 2 then muf else muf +. t *. Float.sqrt (Float.max 0.0 m2f /. (float_of_int n *. float_of_int (n - 1))) in
+  if not (Float.is_finite iR) || Float.abs (iR -. want) > 1e-9 *. (1.0 +. Float.abs want) then
+    oracle_fail "thompson_reward" site (Printf.sprintf "%s: reward %h, expected %h (n=%d mean=%s M2=%s t=%h)" what iR want n (string_of_q mu) (string_of_q m2q) t);
+  (* C: the row is the draws divided by their sum (Model.thompson_row) *)
+  if List.for_all (fun x -> Float.is_finite x && x > 0.0) g then begin
+    let mrow = thompson_row (List.map q_of_float g) in
+    List.iteri (fun k p -> if not (closef p (List.nth mrow k)) then
+                   disagree "thompson_row" site (Printf.sprintf "%s: P(%d)=%h, draws/sum gives %s" what k p (string_of_q (vio_qred (List.nth mrow k))))) irow
+  end
+
 let judge _id (c : cursor) (r : cursor) : bool * string =
   let kind = next c in
   match kind with
@@ -58,8 +79,11 @@ let judge _id (c : cursor) (r : cursor) : bool * string =
     let deferred : (string * string * string) option ref = ref None in
     let defer cl site d = if !deferred = None then deferred := Some (cl, site, d) in
     let nsync = ref 0 and nrec = ref 0 and nincr = ref 0 and sawreset = ref false in
+    let tmodels : (int * int, float list * float) Hashtbl.t array ref = ref [||] in   (* last synced row and reward *)
+    let nthompson = ref 0 in
     let dsite = "MDP::MaximumLikelihoodModel" and ssite = "MDP::SparseMaximumLikelihoodModel" in
     let esite = (match ek with "S" -> "MDP::SparseExperience" | _ -> "MDP::Experience") in
+    let tsite = "MDP::ThompsonModel" in
     let rewards s a = try Hashtbl.find per_pair (s, a) with Not_found -> [] in
     (* ---- oracle on experience cell (s,a) from per-pair list; counts from raw history when asked *)
     let check_stats what s a (iN : int) (iR : float) (iM : float) =
@@ -239,14 +263,40 @@ let judge _id (c : cursor) (r : cursor) : bool * string =
           if iN <> i (nN !e (n_ s) (n_ a)) then disagree "exp_counts" (esite ^ "::record") "dump: counts differ";
           List.iteri (fun s1 x -> if x <> i (v !e (n_ s) (n_ a) (n_ s1)) then disagree "exp_counts" (esite ^ "::record") "dump: visits differ") iVs
         done done;
-        Array.iteri (fun k _ -> judge_full "ml_model_is_empirical" k) !models
+        Array.iteri (fun k _ -> judge_full "ml_model_is_empirical" k) !models;
+        Array.iteri (fun k tbl ->
+            let tt = Array.init sA (fun _ -> Array.init sS (fun _ -> List.init sS (fun _ -> next_f r))) in
+            let rr = Array.init sS (fun _ -> Array.init sA (fun _ -> next_f r)) in
+            for a = 0 to sA - 1 do for s = 0 to sS - 1 do
+              let irow = tt.(a).(s) in
+              let sum = List.fold_left (+.) 0.0 irow in
+              if List.exists (fun p -> not (Float.is_finite p) || p < 0.0) irow || Float.abs (sum -. 1.0) > 1e-9 then
+                oracle_fail "thompson_rows_valid" (tsite ^ "::sync") (Printf.sprintf "dump: model %d row (%d,%d) sums to %.12g" k s a sum);
+              (match Hashtbl.find_opt tbl (s, a) with
+               | Some (row, rw) -> if row <> irow || rw <> rr.(s).(a) then disagree "thompson_row_stable" (tsite ^ "::sync") (Printf.sprintf "model %d row (%d,%d) changed without a sync" k s a)
+               | None -> disagree "thompson_row_stable" (tsite ^ "::sync") "row never synced")
+            done done) !tmodels
+      | "tm" | "ty" | "tp" as opk ->
+        incr nthompson;
+        let k, rows = (match opk with
+            | "tm" -> tmodels := Array.append !tmodels [| Hashtbl.create 16 |];
+              (Array.length !tmodels - 1, List.concat (List.init sA (fun a -> List.init sS (fun s -> (s, a)))))
+            | "ty" -> let k = next_int c in (k, List.concat (List.init sA (fun a -> List.init sS (fun s -> (s, a)))))
+            | _ -> let k = next_int c in let s = next_int c in let a = next_int c in (k, [(s, a)])) in
+        let draws = List.map (fun _ -> let g = List.init sS (fun _ -> next_f r) in let t = next_f r in (g, t)) rows in
+        let h = hist () in
+        List.iter2 (fun (s, a) (g, t) ->
+            let irow = List.init sS (fun _ -> next_f r) in let iR = next_f r in
+            let l = rewards_of h (n_ s) (n_ a) in
+            judge_thompson_row (tsite ^ "::sync") (Printf.sprintf "model %d row (%d,%d)" k s a) g t irow iR (List.length l) (mean_x l) (m2_x l);
+            Hashtbl.replace (!tmodels).(k) (s, a) (irow, iR)) rows draws
       | k -> failwith ("unknown op " ^ k)
     done;
     (match !deferred with Some (cl, site, d) -> oracle_fail cl site d | None -> ());
-    let nt = !nrec > 0 && (!nsync + !nincr > 0) in
+    let nt = !nrec > 0 && (!nsync + !nincr + !nthompson > 0) in
     let all_pre = Array.for_all (function Dense d -> not (t_bad d.tr) | Sparse d -> not (t_bad d.str)) !models in
     let tag = Printf.sprintf "mdp%s%s%s%s" ek (if !nincr > 0 then (if all_pre then "+incr_pre" else "+incr_wild") else "") (if !sawreset then "+reset" else "")
-        (if !nrec >= 10000 then "+x10000" else "") in
+        (if !nrec >= 10000 then "+x10000" else "") ^ (if !nthompson > 0 then "+thompson" else "") in
     (nt, tag)
   | "coop" ->
     let sSl = next_nats c in let sAl = next_nats c in
@@ -260,8 +310,12 @@ let judge _id (c : cursor) (r : cursor) : bool * string =
     let hist_rev : crec list ref = ref [] in
     let hlen = ref 0 in
     let esite = "Factored::MDP::CooperativeExperience" and msite = "Factored::MDP::CooperativeMaximumLikelihoodModel" in
-    let models : (cml ref * (int * int, unit) Hashtbl.t * (int * int, unit) Hashtbl.t) array ref = ref [||] in  (* model, synced now, ever synced *)
+    (* model, Coq tracker state (Spec.ctrk_step: history + marking of rows in step), rows ever synced *)
+    let models : (cml ref * (crec list * (nat -> nat -> bool)) ref * (int * int, unit) Hashtbl.t) array ref = ref [||] in
+    let pre_rev : cop list ref = ref [] in
     let last_ids = ref (List.init nf (fun _ -> O)) in
+    let tsite = "Factored::MDP::CooperativeThompsonModel" in
+    let tmodels : (int * int, float list * float) Hashtbl.t array ref = ref [||] in
     let nrec = ref 0 and nreset = ref 0 and nsync = ref 0 in
     let proj i = List.rev_map (cproj g (n_ i)) !hist_rev in      (* order restored: rev_map of the reversed list *)
     (* statistics of one row against the raw history (O) and the model (C) *)
@@ -289,12 +343,12 @@ let judge _id (c : cursor) (r : cursor) : bool * string =
         done
       done in
     let judge_model k =
-      let (m, synced, ever) = (!models).(k) in
+      let (m, tk, ever) = (!models).(k) in
       for i = 0 to nf - 1 do
         let hi = proj i in
         for j = 0 to sizes.(i) - 1 do
           let probs = List.init ncol.(i) (fun _ -> next_f r) in let iR = next_f r in
-          if Hashtbl.mem synced (i, j) then begin
+          if snd !tk (n_ i) (n_ j) then begin
             let l = row_rewards hi (n_ j) in let tot = List.length l in
             List.iteri (fun v p -> let f = q_of_ints (i_ (row_count hi (n_ j) (n_ v))) tot in
                          if not (closef p f) then oracle_fail "coop_sync_is_empirical" (msite ^ "::syncRow") (Printf.sprintf "model %d node %d row %d: P(%d)=%h, empirical %s" k i j v p (string_of_q f))) probs;
@@ -308,8 +362,9 @@ let judge _id (c : cursor) (r : cursor) : bool * string =
         done
       done in
     let total i j = List.length (row_rewards (proj i) (n_ j)) in
-    let mark k rows = let (_, synced, ever) = (!models).(k) in
-      List.iter (fun (i, j) -> if total i j > 0 then begin Hashtbl.replace synced (i, j) (); Hashtbl.replace ever (i, j) () end) rows in
+    let mark k rows = let (_, _, ever) = (!models).(k) in
+      List.iter (fun (i, j) -> if total i j > 0 then Hashtbl.replace ever (i, j) ()) rows in
+    let track k o = let (_, tk, _) = (!models).(k) in tk := ctrk_step g !tk o in
     let all_rows () = List.concat (List.init nf (fun i -> List.init sizes.(i) (fun j -> (i, j)))) in
     let nops = next_int c in
     for _n = 1 to nops do
@@ -324,7 +379,7 @@ let judge _id (c : cursor) (r : cursor) : bool * string =
         last_ids := ids;
         let iids = List.init nf (fun _ -> next_int r) in
         List.iteri (fun i id -> if id <> i_ (List.nth ids i) then disagree "coop_getId" "Factored::DDNGraph::getId" (Printf.sprintf "node %d: record() reports row %d, model %d" i id (i_ (List.nth ids i)))) iids;
-        Array.iter (fun (_, synced, _) -> List.iteri (fun i id -> Hashtbl.remove synced (i, i_ id)) ids) !models;
+        pre_rev := o :: !pre_rev; Array.iteri (fun k _ -> track k (C2Exp o)) !models;
         for i = 0 to nf - 1 do
           let id = i_ (List.nth ids i) and v = i_ (List.nth s1 i) in
           let iV = next_int r in let iN = next_int r in let iR = next_f r in let iM = next_f r in
@@ -334,23 +389,91 @@ let judge _id (c : cursor) (r : cursor) : bool * string =
         if iT <> !hlen then oracle_fail "coop_welford_exact" (esite ^ "::record") "timesteps differ from the number of records"
       | "z" ->
         e := cexp_step g !e CReset; hist_rev := []; hlen := 0; incr nreset;
-        Array.iter (fun (_, synced, _) -> Hashtbl.reset synced) !models;
+        pre_rev := CReset :: !pre_rev; Array.iteri (fun k _ -> track k (C2Exp CReset)) !models;
         judge_exp_dump "after reset"
-      | "d" -> judge_exp_dump "dump"; Array.iteri (fun k _ -> judge_model k) !models
+      | "d" -> judge_exp_dump "dump"; Array.iteri (fun k _ -> judge_model k) !models;
+        Array.iteri (fun k tbl ->
+            for i = 0 to nf - 1 do for j = 0 to sizes.(i) - 1 do
+              let irow = List.init ncol.(i) (fun _ -> next_f r) in let iR = next_f r in
+              let sum = List.fold_left (+.) 0.0 irow in
+              if List.exists (fun p -> not (Float.is_finite p) || p < 0.0) irow || Float.abs (sum -. 1.0) > 1e-9 then
+                oracle_fail "thompson_rows_valid" (tsite ^ "::syncRow") (Printf.sprintf "dump: model %d node %d row %d sums to %.12g" k i j sum);
+              (match Hashtbl.find_opt tbl (i, j) with
+               | Some (row, rw) -> if row <> irow || rw <> iR then disagree "thompson_row_stable" (tsite ^ "::syncRow") (Printf.sprintf "model %d node %d row %d changed without a sync" k i j)
+               | None -> disagree "thompson_row_stable" (tsite ^ "::syncRow") "row never synced")
+            done done) !tmodels
+      | "ctm" | "cty" | "ctp" | "cti" as opk ->
+        incr nsync;
+        let k, rows = (match opk with
+            | "ctm" -> tmodels := Array.append !tmodels [| Hashtbl.create 16 |]; (Array.length !tmodels - 1, all_rows ())
+            | "cty" -> let k = next_int c in (k, all_rows ())
+            | "cti" -> let k = next_int c in (k, List.mapi (fun i id -> (i, i_ id)) !last_ids)
+            | _ -> let k = next_int c in
+              let s = List.init nf (fun _ -> next_nat c) in let a = List.init na (fun _ -> next_nat c) in
+              (k, List.init nf (fun i -> (i, i_ (cg_id g (n_ i) s a))))) in
+        let draws = List.map (fun (i, _) -> let gd = List.init ncol.(i) (fun _ -> next_f r) in let t = next_f r in (gd, t)) rows in
+        List.iter2 (fun (i, j) (gd, t) ->
+            let irow = List.init ncol.(i) (fun _ -> next_f r) in let iR = next_f r in
+            let l = row_rewards (proj i) (n_ j) in
+            judge_thompson_row (tsite ^ "::syncRow") (Printf.sprintf "model %d node %d row %d" k i j) gd t irow iR (List.length l) (mean_x l) (m2_x l);
+            Hashtbl.replace (!tmodels).(k) (i, j) (irow, iR)) rows draws
       | "cm" -> let flag = next_int c <> 0 in
-        models := Array.append !models [| (ref (cml_ctor g !e flag), Hashtbl.create 8, Hashtbl.create 8) |];
+        models := Array.append !models [| (ref (cml_ctor g !e flag), ref (ctrack g (List.rev !pre_rev) flag []), Hashtbl.create 8) |];
         let k = Array.length !models - 1 in
         if flag then (mark k (all_rows ()); incr nsync); judge_model k
       | "cy" -> let k = next_int c in let (m, _, _) = (!models).(k) in
-        m := cml_sync_all g !e !m; mark k (all_rows ()); incr nsync; judge_model k
+        m := cml_sync_all g !e !m; track k C2SyncAll; mark k (all_rows ()); incr nsync; judge_model k
       | "cp" -> let k = next_int c in let (m, _, _) = (!models).(k) in
         let s = List.init nf (fun _ -> next_nat c) in let a = List.init na (fun _ -> next_nat c) in
-        m := cml_sync_sa g !e !m s a; mark k (List.init nf (fun i -> (i, i_ (cg_id g (n_ i) s a)))); incr nsync; judge_model k
+        m := cml_sync_sa g !e !m s a; track k (C2SyncSA (s, a)); mark k (List.init nf (fun i -> (i, i_ (cg_id g (n_ i) s a)))); incr nsync; judge_model k
       | "ci" -> let k = next_int c in let (m, _, _) = (!models).(k) in
-        m := cml_sync_ids g !e !m !last_ids; mark k (List.mapi (fun i id -> (i, i_ id)) !last_ids); incr nsync; judge_model k
+        m := cml_sync_ids g !e !m !last_ids; track k (C2SyncIds !last_ids); mark k (List.mapi (fun i id -> (i, i_ id)) !last_ids); incr nsync; judge_model k
       | k -> failwith ("unknown op " ^ k)
     done;
     (!nrec > 1, Printf.sprintf "coop%s%s" (if !nreset > 0 then "+reset" else "") (if !nsync > 0 then "+model" else ""))
+  | "fbandit" ->
+    let aA = next_nats c in
+    let deps = next_list c next_nats in
+    let ng = List.length deps and na = List.length aA in
+    let sizes = List.map (fun d -> i_ (pspace d aA)) deps in
+    let e = ref (fbexp_new aA deps) in
+    let hist_rev = ref [] and hlen = ref 0 and nrec = ref 0 and nreset = ref 0 in
+    let site = "Factored::Bandit::Experience::record" in
+    let judge_arm what gi arm iN iR iM =
+      let hi = List.rev_map (fbproj aA deps (n_ gi)) !hist_rev in
+      let l = arm_rewards hi (n_ arm) in
+      if iN <> List.length l then oracle_fail "fbandit_welford_exact" site (Printf.sprintf "%s: group %d arm %d count %d, history %d" what gi arm iN (List.length l));
+      if not (closef iR (mean_x l)) then oracle_fail "fbandit_welford_exact" site (Printf.sprintf "%s: group %d arm %d mean %h, history %s" what gi arm iR (string_of_q (mean_x l)));
+      if not (closef iM (m2_x l)) then oracle_fail "fbandit_welford_exact" site (Printf.sprintf "%s: group %d arm %d M2 %h, history %s" what gi arm iM (string_of_q (m2_x l)));
+      let b = fbnode !e (n_ gi) in
+      if iN <> i_ (List.nth b.b_vis arm) then disagree "fbandit_counts" site "count differs";
+      if not (closef iR (List.nth b.b_avg arm)) || not (closef iM (List.nth b.b_m2 arm)) then disagree "fbandit_stats" site "mean/M2 differ" in
+    let judge_dump what =
+      let iT = next_int r in
+      if iT <> !hlen then oracle_fail "fbandit_welford_exact" site (Printf.sprintf "%s: timesteps %d, records %d" what iT !hlen);
+      List.iteri (fun gi sz -> for arm = 0 to sz - 1 do
+                     let iN = next_int r in let iR = next_f r in let iM = next_f r in judge_arm what gi arm iN iR iM done) sizes in
+    let nops = next_int c in
+    for _n = 1 to nops do
+      match next c with
+      | "r" ->
+        let a = List.init na (fun _ -> next_nat c) in let rw = List.init ng (fun _ -> next_q c) in
+        let o = FRecord (a, rw) in
+        if not (fbop_ok aA deps o) then failwith "fbandit: record out of range";
+        e := fbexp_step aA deps !e o; hist_rev := (a, rw) :: !hist_rev; incr hlen; incr nrec;
+        List.iteri (fun gi d ->
+            let arm = i_ (pidx d aA a) in
+            let iid = next_int r in
+            if iid <> arm then disagree "fbandit_index" "Factored::toIndexPartial" (Printf.sprintf "group %d: record() reports arm %d, model %d" gi iid arm);
+            let iN = next_int r in let iR = next_f r in let iM = next_f r in
+            judge_arm "after record" gi arm iN iR iM) deps;
+        let iT = next_int r in
+        if iT <> !hlen then oracle_fail "fbandit_welford_exact" site "timesteps differ from the number of records"
+      | "z" -> e := fbexp_step aA deps !e FReset; hist_rev := []; hlen := 0; incr nreset; judge_dump "after reset"
+      | "d" -> judge_dump "dump"
+      | k -> failwith ("unknown op " ^ k)
+    done;
+    (!nrec > 1, if !nreset > 0 then "fbandit+reset" else "fbandit")
   | "svt" ->
     let sS = next_int c in let sA = next_int c in
     let nS = n_ sS and nA = n_ sA in
